@@ -198,8 +198,8 @@ def main():
         else:
             print(f"VIOLATION property={prop} replay={path} no-failing-input-found")
         print(f"  obligation {rec['name']} refuted ({rec.get('function')}); witness={json.dumps(rec.get('witness'), default=str)[:300]}")
-        if outcome.get("detail"):
-            print(f"  replay: {str(outcome.get('detail'))[:300]}")
+        if outcome.get("detail") or outcome.get("stderr"):
+            print(f"  replay[{st}]: {str(outcome.get('detail') or outcome.get('stderr'))[-300:] if st == 'error' else str(outcome.get('detail'))[:300]}")
         exit_code = 1
     if not violations and undecided:
         for rec in undecided[:20]:
